@@ -199,6 +199,27 @@ func (c *Check) residualFlag() {
 	for _, b := range helperBlocks(f, 2) {
 		for _, ins := range b.Instrs {
 			if call, ok := ins.(*ssa.Call); ok && call.Call.StaticCallee() != nil && call.Call.StaticCallee().Name() == "AddToEdgeDiv" && len(call.Call.Args) >= 5 {
+				if par, isPar := call.Call.Args[4].(*ssa.Parameter); isPar && par.Parent() == call.Parent() && call.Parent() != f {
+					// added through a wrapper that is handed the flag: the flag at the wrapper's calls
+					w := call.Parent()
+					idx := -1
+					for i, q := range w.Params {
+						if q == par {
+							idx = i
+						}
+					}
+					sites, _ := directCallSites(p, w)
+					for _, cs := range sites {
+						if wc, ok := cs.(*ssa.Call); ok && idx >= 0 && idx < len(wc.Call.Args) && wc.Parent().Name() != "newTree" {
+							if _, isConst := wc.Call.Args[idx].(*ssa.Const); isConst {
+								continue
+							}
+							grow(wc.Call.Args[idx])
+							body = wc.Parent()
+						}
+					}
+					continue
+				}
 				grow(call.Call.Args[4])
 				body = b.Parent()
 			}
